@@ -140,36 +140,288 @@ theorem sigOK_aeq (a b : Term) (h : Term.aeq a b = true) : sigOK a = sigOK b := 
 
 /-! ### typing -/
 
+/-- inversion of `checkedGetType` on an application -/
+theorem Term.checkedGetType_comb_inv (bd : List Ty) (f a : Term) (T : Ty)
+    (h : Term.checkedGetType bd (.comb f a) = .ok T) :
+    ∃ tf ta, Term.checkedGetType bd f = .ok tf ∧ Term.checkedGetType bd a = .ok ta ∧
+      tf.isFun = true ∧ tf.domain? = some ta ∧ tf.range? = some T := by
+  simp only [Term.checkedGetType, bind, Except.bind] at h
+  cases hf : Term.checkedGetType bd f with
+  | error e => rw [hf] at h; cases h
+  | ok tf =>
+    cases ha : Term.checkedGetType bd a with
+    | error e => rw [hf, ha] at h; cases h
+    | ok ta =>
+      rw [hf, ha] at h
+      simp only at h
+      cases hfun : tf.isFun with
+      | false => simp [hfun] at h
+      | true =>
+        cases hd : tf.domain? with
+        | none => simp [hfun, hd] at h
+        | some d =>
+          cases hr : tf.range? with
+          | none =>
+            simp only [hfun, hd, hr] at h
+            by_cases hdt : d = ta <;> simp [hdt] at h
+          | some r =>
+            simp only [hfun, hd, hr] at h
+            by_cases hdt : d = ta
+            · subst hdt
+              simp at h
+              exact ⟨tf, d, rfl, rfl, hfun, hd, by rw [hr, h]⟩
+            · simp [hdt] at h
+
+/-- inversion of `checkedGetType` on an abstraction -/
+theorem Term.checkedGetType_abs_inv (bd : List Ty) (x : String) (S : Ty) (b : Term) (T : Ty)
+    (h : Term.checkedGetType bd (.abs x S b) = .ok T) :
+    ∃ tb, Term.checkedGetType (S :: bd) b = .ok tb ∧ T = Ty.fn S tb := by
+  simp only [Term.checkedGetType, bind, Except.bind] at h
+  cases hb : Term.checkedGetType (S :: bd) b with
+  | error e => rw [hb] at h; cases h
+  | ok tb =>
+    rw [hb] at h
+    simp only [Except.ok.injEq] at h
+    exact ⟨tb, rfl, h.symm⟩
+
+/-- inversion of `checkedGetType` on a bound variable -/
+theorem Term.checkedGetType_bound_inv (bd : List Ty) (i : Nat) (T : Ty)
+    (h : Term.checkedGetType bd (.bound i) = .ok T) : bd[i]? = some T := by
+  simp only [Term.checkedGetType] at h
+  split at h
+  · simp only [Except.ok.injEq] at h; subst h; assumption
+  · cases h
+
 /-- the lax type agrees with the checked type whenever the term type-checks -/
 theorem Term.getType_of_checked (bd : List Ty) (t : Term) (T : Ty)
     (h : Term.checkedGetType bd t = .ok T) : Term.getType bd t = .ok T := by
-  sorry
+  induction t generalizing bd T with
+  | svar n S => simpa [Term.checkedGetType, Term.getType] using h
+  | var n S => simpa [Term.checkedGetType, Term.getType] using h
+  | const n S => simpa [Term.checkedGetType, Term.getType] using h
+  | comb f a ihf iha =>
+    obtain ⟨tf, ta, hf, ha, hfun, hd, hr⟩ := Term.checkedGetType_comb_inv bd f a T h
+    simp [Term.getType, ihf bd tf hf, bind, Except.bind, hfun, hr]
+  | abs x S b ih =>
+    obtain ⟨tb, hb, rfl⟩ := Term.checkedGetType_abs_inv bd x S b T h
+    simp [Term.getType, ih (S :: bd) tb hb, bind, Except.bind]
+  | bound i =>
+    have := Term.checkedGetType_bound_inv bd i T h
+    simp [Term.getType, this]
 
 /-- a term that type-checks in `bd` has no loose bound variable beyond `bd` -/
 theorem Term.closed_of_checked (bd : List Ty) (t : Term) (T : Ty)
     (h : Term.checkedGetType bd t = .ok T) : Term.isOpenAt bd.length t = false := by
-  sorry
+  induction t generalizing bd T with
+  | svar n S => simp [Term.isOpenAt]
+  | var n S => simp [Term.isOpenAt]
+  | const n S => simp [Term.isOpenAt]
+  | comb f a ihf iha =>
+    obtain ⟨tf, ta, hf, ha, hfun, hd, hr⟩ := Term.checkedGetType_comb_inv bd f a T h
+    simp [Term.isOpenAt, ihf bd tf hf, iha bd ta ha]
+  | abs x S b ih =>
+    obtain ⟨tb, hb, rfl⟩ := Term.checkedGetType_abs_inv bd x S b T h
+    have := ih (S :: bd) tb hb
+    simpa [Term.isOpenAt] using this
+  | bound i =>
+    have := Term.checkedGetType_bound_inv bd i T h
+    have hlt : i < bd.length := by
+      rcases Nat.lt_or_ge i bd.length with hl | hl
+      · exact hl
+      · rw [List.getElem?_eq_none hl] at this; cases this
+    simp [Term.isOpenAt, hlt]
+
+/-- the shape of the type at which a constant is logical -/
+theorem logicalKind_eq_some (n : String) (T : Ty) (k : Nat) (a : Ty)
+    (h : logicalKind n T = some (k, a)) :
+    (k = 0 ∧ n = "equals" ∧ T = Ty.fn a (Ty.fn a Ty.bool)) ∨
+    (k = 1 ∧ n = "implies" ∧ T = Ty.fn Ty.bool (Ty.fn Ty.bool Ty.bool)) ∨
+    (k = 2 ∧ n = "all" ∧ T = Ty.fn (Ty.fn a Ty.bool) Ty.bool) := by
+  unfold logicalKind at h
+  split at h
+  · rename_i b b'
+    by_cases hb : b = b'
+    · subst hb
+      simp only [if_true, Option.some.injEq, Prod.mk.injEq] at h
+      obtain ⟨rfl, rfl⟩ := h
+      exact Or.inl ⟨rfl, rfl, rfl⟩
+    · simp [hb] at h
+  · simp only [Option.some.injEq, Prod.mk.injEq] at h
+    obtain ⟨rfl, rfl⟩ := h
+    exact Or.inr (Or.inl ⟨rfl, rfl, rfl⟩)
+  · simp only [Option.some.injEq, Prod.mk.injEq] at h
+    obtain ⟨rfl, rfl⟩ := h
+    exact Or.inr (Or.inr ⟨rfl, rfl, rfl⟩)
+  · cases h
+
+theorem logicalKind_equals (T : Ty) :
+    logicalKind "equals" (Ty.fn T (Ty.fn T Ty.bool)) = some (0, T) := by
+  simp [logicalKind, Ty.fn, Ty.bool]
+
+theorem logicalKind_implies :
+    logicalKind "implies" (Ty.fn Ty.bool (Ty.fn Ty.bool Ty.bool)) = some (1, Ty.bool) := by
+  simp [logicalKind, Ty.fn, Ty.bool]
+
+theorem logicalKind_all (T : Ty) :
+    logicalKind "all" (Ty.fn (Ty.fn T Ty.bool) Ty.bool) = some (2, T) := by
+  simp [logicalKind, Ty.fn, Ty.bool]
+
+theorem constVal_equals (M : Model) (ρ : Valuation) (T : Ty) :
+    constVal M ρ "equals" (Ty.fn T (Ty.fn T Ty.bool)) = eqCode (M.size T) := by
+  simp only [constVal, logicalKind_equals]
+
+theorem constVal_implies (M : Model) (ρ : Valuation) :
+    constVal M ρ "implies" (Ty.fn Ty.bool (Ty.fn Ty.bool Ty.bool)) = implCode := by
+  simp only [constVal, logicalKind_implies]
+
+theorem constVal_all (M : Model) (ρ : Valuation) (T : Ty) :
+    constVal M ρ "all" (Ty.fn (Ty.fn T Ty.bool) Ty.bool) = allCode (M.size T) := by
+  simp only [constVal, logicalKind_all]
 
 /-- the value of a logical or uninterpreted constant fits its type -/
 theorem constVal_lt (M : Model) (ρ : Valuation) (hρ : Admissible M ρ) (n : String) (T : Ty) :
     constVal M ρ n T < M.size T := by
-  sorry
+  cases hk : logicalKind n T with
+  | none =>
+    simp only [constVal, hk]
+    exact hρ 2 n T
+  | some p =>
+    obtain ⟨k, a⟩ := p
+    rcases logicalKind_eq_some n T k a hk with ⟨rfl, rfl, rfl⟩ | ⟨rfl, rfl, rfl⟩ | ⟨rfl, rfl, rfl⟩
+    · rw [constVal_equals]
+      simp only [Model.size_fn, Model.size_bool]
+      exact eqCode_lt _
+    · rw [constVal_implies]
+      simp only [Model.size_fn, Model.size_bool]
+      exact implCode_lt
+    · rw [constVal_all]
+      simp only [Model.size_fn, Model.size_bool]
+      exact allCode_lt _
+
+theorem EnvOK.length_eq {M : Model} {bd : List Ty} {env : List Nat} (h : EnvOK M bd env) :
+    bd.length = env.length := by
+  unfold EnvOK at h
+  induction h with
+  | nil => rfl
+  | cons _ _ ih => simp [ih]
+
+theorem EnvOK.cons {M : Model} {bd : List Ty} {env : List Nat} (h : EnvOK M bd env)
+    {T : Ty} {v : Nat} (hv : v < M.size T) : EnvOK M (T :: bd) (v :: env) :=
+  Forall2.cons hv h
+
+theorem EnvOK.nil (M : Model) : EnvOK M [] [] := Forall2.nil
+
+theorem EnvOK.get {M : Model} {bd : List Ty} {env : List Nat} (h : EnvOK M bd env)
+    (i : Nat) (T : Ty) (hT : bd[i]? = some T) : env[i]?.getD 0 < M.size T := by
+  unfold EnvOK at h
+  induction h generalizing i with
+  | nil => simp at hT
+  | cons hab _ ih =>
+    cases i with
+    | zero =>
+      simp only [List.getElem?_cons_zero, Option.some.injEq] at hT
+      subst hT
+      simpa using hab
+    | succ j =>
+      simp only [List.getElem?_cons_succ] at hT ⊢
+      exact ih j hT
 
 /-- type soundness of the denotation -/
 theorem sem_lt (M : Model) (ρ : Valuation) (hρ : Admissible M ρ) (bd : List Ty) (env : List Nat)
     (henv : EnvOK M bd env) (t : Term) (T : Ty) (h : Term.checkedGetType bd t = .ok T) :
     sem M ρ bd env t < M.size T := by
-  sorry
+  induction t generalizing bd env T with
+  | svar n S =>
+    simp only [Term.checkedGetType, Except.ok.injEq] at h
+    subst h
+    exact hρ 0 n S
+  | var n S =>
+    simp only [Term.checkedGetType, Except.ok.injEq] at h
+    subst h
+    exact hρ 1 n S
+  | const n S =>
+    simp only [Term.checkedGetType, Except.ok.injEq] at h
+    subst h
+    exact constVal_lt M ρ hρ n S
+  | comb f a ihf iha =>
+    obtain ⟨tf, ta, hf, ha, hfun, hd, hr⟩ := Term.checkedGetType_comb_inv bd f a T h
+    simp only [sem, Term.getType_of_checked bd f tf hf, hr]
+    exact appCode_lt _ _ _ (Model.size_pos M T)
+  | abs x S b ih =>
+    obtain ⟨tb, hb, rfl⟩ := Term.checkedGetType_abs_inv bd x S b T h
+    simp only [sem, Term.getType_of_checked (S :: bd) b tb hb, Model.size_fn]
+    apply lamCode_lt
+    intro v hv
+    exact ih (S :: bd) (v :: env) (henv.cons hv) tb hb
+  | bound i =>
+    have hi := Term.checkedGetType_bound_inv bd i T h
+    simp only [sem]
+    exact henv.get i T hi
+
+/-- a term that type-checks in a prefix of the context keeps its checked type -/
+theorem Term.checkedGetType_append (bd0 : List Ty) (t : Term) (T : Ty)
+    (h : Term.checkedGetType bd0 t = .ok T) (bd : List Ty) :
+    Term.checkedGetType (bd0 ++ bd) t = .ok T := by
+  induction t generalizing bd0 T with
+  | svar n S => simpa [Term.checkedGetType] using h
+  | var n S => simpa [Term.checkedGetType] using h
+  | const n S => simpa [Term.checkedGetType] using h
+  | comb f a ihf iha =>
+    obtain ⟨tf, ta, hf, ha, hfun, hd, hr⟩ := Term.checkedGetType_comb_inv bd0 f a T h
+    simp [Term.checkedGetType, ihf bd0 tf hf, iha bd0 ta ha, bind, Except.bind, hfun, hd, hr]
+  | abs x S b ih =>
+    obtain ⟨tb, hb, rfl⟩ := Term.checkedGetType_abs_inv bd0 x S b T h
+    have := ih (S :: bd0) tb hb
+    simp only [List.cons_append] at this
+    simp [Term.checkedGetType, this, bind, Except.bind]
+  | bound i =>
+    have hi := Term.checkedGetType_bound_inv bd0 i T h
+    have hlt : i < bd0.length := by
+      rcases Nat.lt_or_ge i bd0.length with hl | hl
+      · exact hl
+      · rw [List.getElem?_eq_none hl] at hi; cases hi
+    simp [Term.checkedGetType, List.getElem?_append_left hlt, hi]
+
+/-- a term that type-checks in a prefix of the context only looks at that prefix -/
+theorem sem_append (M : Model) (ρ : Valuation) (bd0 : List Ty) (env0 : List Nat)
+    (hlen : bd0.length = env0.length) (t : Term) (T : Ty)
+    (h : Term.checkedGetType bd0 t = .ok T) (bd : List Ty) (env : List Nat) :
+    sem M ρ (bd0 ++ bd) (env0 ++ env) t = sem M ρ bd0 env0 t := by
+  induction t generalizing bd0 env0 T with
+  | svar n S => simp [sem]
+  | var n S => simp [sem]
+  | const n S => simp [sem]
+  | comb f a ihf iha =>
+    obtain ⟨tf, ta, hf, ha, hfun, hd, hr⟩ := Term.checkedGetType_comb_inv bd0 f a T h
+    simp only [sem, Term.getType_of_checked _ f tf (Term.checkedGetType_append bd0 f tf hf bd),
+      Term.getType_of_checked bd0 f tf hf, ihf bd0 env0 hlen tf hf, iha bd0 env0 hlen ta ha]
+  | abs x S b ih =>
+    obtain ⟨tb, hb, rfl⟩ := Term.checkedGetType_abs_inv bd0 x S b T h
+    have h1 := Term.getType_of_checked _ b tb (Term.checkedGetType_append (S :: bd0) b tb hb bd)
+    simp only [List.cons_append] at h1
+    simp only [sem, h1, Term.getType_of_checked (S :: bd0) b tb hb]
+    apply lamCode_congr
+    intro v _
+    have := ih (S :: bd0) (v :: env0) (by simp [hlen]) tb hb
+    simpa only [List.cons_append] using this
+  | bound i =>
+    have hi := Term.checkedGetType_bound_inv bd0 i T h
+    have hlt : i < env0.length := by
+      rw [← hlen]
+      rcases Nat.lt_or_ge i bd0.length with hl | hl
+      · exact hl
+      · rw [List.getElem?_eq_none hl] at hi; cases hi
+    simp [sem, List.getElem?_append_left hlt]
 
 /-- a closed term does not look at the environment -/
 theorem sem_closed (M : Model) (ρ : Valuation) (t : Term) (T : Ty)
     (h : Term.checkedGetType [] t = .ok T) (bd : List Ty) (env : List Nat) :
     sem M ρ bd env t = sem M ρ [] [] t := by
-  sorry
+  simpa using sem_append M ρ [] [] rfl t T h bd env
 
 theorem Term.checkedGetType_closed (t : Term) (T : Ty)
     (h : Term.checkedGetType [] t = .ok T) (bd : List Ty) : Term.checkedGetType bd t = .ok T := by
-  sorry
+  simpa using Term.checkedGetType_append [] t T h bd
 
 /-! ### the logical constants -/
 
